@@ -1,0 +1,8 @@
+//! Verification seam, compiled only with `--cfg nucleo_verif`.
+//!
+//! The runtime crate is supplied by the verification harness (it is not a
+//! dependency of the shipped crate): it provides drop-in wrappers around the
+//! std atomics that are scheduling points of a deterministic simulator, plus
+//! the probe / happens-before hooks referenced from `#[cfg(nucleo_verif)]`
+//! lines in this crate.
+pub use nucleo_verif_rt::*;
